@@ -9,6 +9,7 @@ readHandshake); spec: `Gotlcp.Spec.FragmentSpec` (coverage as a set of byte indi
 -/
 import Gotlcp.Lemmas.Fragment
 import Gotlcp.Generated.Facts
+import Gotlcp.Tie.Fragment
 
 set_option linter.unusedSimpArgs false
 set_option linter.unusedVariables false
@@ -424,5 +425,150 @@ example :
     (recv false 65536 256 [] [f0, f4, f3]).2.1 = .msg (header 20 4 0 0 4 ++ b [1,2,3,4,5]) ∧
     (recv true 65536 256 [] [f0, bad, f3, f3, f4]).2.1 = .fatal .mismatch ∧
     (recv true 65536 256 [] [f0, f4, f3]).2.1 = .fatal .mismatch := by decide
+
+/-! ### the buffer theorems, for the TRANSLATED source
+
+`Gotlcp.Src.dtlcp.newFragmentBuffer / fragmentBuffer.addFragment / .complete / .assembled` are
+regenerated from `dtlcp/fragment.go` by `go2lean` on every run; `Gotlcp.Tie.Fragment` proves
+them equal to the model for all inputs and free of panics (`tie_new`, `tie_add`,
+`tie_complete`, `tie_run`, `tie_session`).  So the buffer theorems above hold of the function
+text that is in the tree now.  `srcSession t fs` = `newFragmentBuffer(t)`, then `addFragment`
+for every element of `fs`, then `(accept bits, complete(), assembled())`; `Except.ok` means no
+run-time panic (index, slice bounds, `make`). -/
+
+theorem C17_src_translated : Src.untranslated = [] := by decide
+
+/-- one call of the translated `addFragment` on any well-formed buffer, any `uint32` (hence any
+`uint24`) offset and length, any body: no panic, the model's step, well-formedness kept -/
+theorem C17_src_add_is_model (fb : Src.dtlcp.fragmentBuffer) (h : Tie.Fragment.WF fb)
+    (off len : BitVec 32) (frag : List (BitVec 8)) :
+    ∃ fb' ok, Src.dtlcp.fragmentBuffer.addFragment fb off len frag = .ok (fb', ok) ∧
+      (Tie.Fragment.abs fb', ok)
+        = addFragment (Tie.Fragment.abs fb) off.toNat len.toNat (frag.map Tie.Fragment.ob) ∧
+      Tie.Fragment.WF fb' :=
+  Tie.Fragment.tie_add fb h off len frag
+
+/-- the translated `complete` on any well-formed buffer: no panic, the model's answer -/
+theorem C17_src_complete_is_model (fb : Src.dtlcp.fragmentBuffer) (h : Tie.Fragment.WF fb) :
+    Src.dtlcp.fragmentBuffer.complete fb = .ok (complete (Tie.Fragment.abs fb)) :=
+  Tie.Fragment.tie_complete fb h
+
+/-- **No panic.** Any announced length, any fragment list: `copy(fb.data[offset:offset+length],
+frag)`, every bitmap index in `addFragment` and `complete`, and both `make` calls stay in range. -/
+theorem C17_src_never_panics (t : BitVec 32) (fs : List Tie.Fragment.SrcFrag) :
+    ∃ r, Tie.Fragment.srcSession t fs = .ok r := by
+  obtain ⟨d, e, _⟩ := Tie.Fragment.tie_session t fs
+  exact ⟨_, e⟩
+
+/-- **Bitmask invariant, translated source**: `complete()` answers true iff every byte index
+below `numBytes` lies in an accepted fragment. -/
+theorem C17_src_complete_iff_covered (t : BitVec 32) (fs : List Tie.Fragment.SrcFrag) :
+    ∃ oks c d, Tie.Fragment.srcSession t fs = .ok (oks, c, d) ∧
+      (c = true ↔ ∀ i < numBytes t.toNat,
+        FragmentSpec.covered (numBytes t.toNat) ((fs.map Tie.Fragment.absFrag).map toSpec) i = true) := by
+  obtain ⟨d, e, _⟩ := Tie.Fragment.tie_session t fs
+  exact ⟨_, _, d, e, C17_complete_iff_covered t.toNat _⟩
+
+/-- the accept bits of the translated `addFragment` are the spec's admissibility test -/
+theorem C17_src_accept_iff_admissible (t : BitVec 32) (fs : List Tie.Fragment.SrcFrag) :
+    ∃ c d, Tie.Fragment.srcSession t fs =
+      .ok ((fs.map Tie.Fragment.absFrag).map (fun f => (toSpec f).admissible (numBytes t.toNat)), c, d) := by
+  obtain ⟨d, e, _⟩ := Tie.Fragment.tie_session t fs
+  rw [C17_accept_iff_admissible] at e
+  exact ⟨_, d, e⟩
+
+/-- **Out-of-range fragments are rejected and change nothing** — any buffer state at all -/
+theorem C17_src_reject_oob (fb : Src.dtlcp.fragmentBuffer) (off len : BitVec 32) (frag : List (BitVec 8))
+    (h : (off.toNat : Int) + (len.toNat : Int) > fb.numBytes) :
+    Src.dtlcp.fragmentBuffer.addFragment fb off len frag = .ok (fb, false) := by
+  unfold Src.dtlcp.fragmentBuffer.addFragment
+  simp only [bind, Except.bind, pure, Except.pure, h, decide_true, if_true]
+
+/-- **Never partial, translated source.** -/
+theorem C17_src_never_partial (t : BitVec 32) (h : 0 < t.toNat) (fs : List Tie.Fragment.SrcFrag)
+    (i : Nat) (hi : i < t.toNat)
+    (hun : FragmentSpec.covered t.toNat ((fs.map Tie.Fragment.absFrag).map toSpec) i = false) :
+    ∃ oks d, Tie.Fragment.srcSession t fs = .ok (oks, false, d) := by
+  obtain ⟨d, e, _⟩ := Tie.Fragment.tie_session t fs
+  rw [C17_never_partial t.toNat h _ i hi hun] at e
+  exact ⟨_, d, e⟩
+
+/-- fragment `f` carries the bytes of `m` at its offset (source-level bytes) -/
+def SrcConsistent (m : List (BitVec 8)) (f : Tie.Fragment.SrcFrag) : Prop :=
+  f.len.toNat ≤ f.body.length ∧ ∀ j < f.len.toNat, f.body[j]? = m[f.off.toNat + j]?
+
+theorem srcConsistent_abs (m : List (BitVec 8)) (f : Tie.Fragment.SrcFrag) (h : SrcConsistent m f) :
+    Consistent (m.map Tie.Fragment.ob) (Tie.Fragment.absFrag f) := by
+  refine ⟨by simp only [Tie.Fragment.absFrag, List.length_map]; exact h.1, ?_⟩
+  intro j hj
+  simp only [Tie.Fragment.absFrag, List.getElem?_map]
+  rw [h.2 j hj]
+
+/-- **Exact reassembly, translated source.** Whenever the translated `complete()` says true
+after fragments of `m` (any order, overlap, duplication; out-of-range ones are rejected
+anyway), the translated `assembled()` returns exactly `m`. -/
+theorem C17_src_assembled_exact (m : List (BitVec 8)) (hm : 0 < m.length) (hlen : m.length < 2 ^ 32)
+    (fs : List Tie.Fragment.SrcFrag)
+    (hc : ∀ f ∈ fs, f.off.toNat + f.len.toNat ≤ m.length → SrcConsistent m f)
+    (oks : List Bool) (d : List (BitVec 8))
+    (h : Tie.Fragment.srcSession (BitVec.ofNat 32 m.length) fs = .ok (oks, true, d)) : d = m := by
+  obtain ⟨d', e, hd⟩ := Tie.Fragment.tie_session (BitVec.ofNat 32 m.length) fs
+  have ht : (BitVec.ofNat 32 m.length).toNat = (m.map Tie.Fragment.ob).length := by
+    rw [BitVec.toNat_ofNat, List.length_map]; exact Nat.mod_eq_of_lt hlen
+  rw [ht] at e hd
+  rw [e] at h
+  injection h with h
+  injection h with _ h
+  injection h with hcomp hdd
+  subst hdd
+  have hex := C17_assembled_exact (m.map Tie.Fragment.ob) (by rw [List.length_map]; exact hm)
+    (fs.map Tie.Fragment.absFrag)
+    (by
+      intro g hg hle
+      obtain ⟨f, hf, rfl⟩ := List.mem_map.mp hg
+      rw [List.length_map] at hle
+      exact srcConsistent_abs m f (hc f hf hle))
+    hcomp
+  rw [hex] at hd
+  exact (List.map_inj_right (fun x y hxy => Tie.Fragment.ob_inj.mp hxy)).mp hd
+
+/-- … and the translated source is complete and returns exactly `m` as soon as the fragments
+cover `m` -/
+theorem C17_src_rebuilt_when_covered (m : List (BitVec 8)) (hm : 0 < m.length) (hlen : m.length < 2 ^ 32)
+    (fs : List Tie.Fragment.SrcFrag)
+    (hc : ∀ f ∈ fs, f.off.toNat + f.len.toNat ≤ m.length → SrcConsistent m f)
+    (hcov : FragmentSpec.isComplete m.length ((fs.map Tie.Fragment.absFrag).map toSpec) = true) :
+    ∃ oks, Tie.Fragment.srcSession (BitVec.ofNat 32 m.length) fs = .ok (oks, true, m) := by
+  obtain ⟨d', e, hd⟩ := Tie.Fragment.tie_session (BitVec.ofNat 32 m.length) fs
+  have ht : (BitVec.ofNat 32 m.length).toNat = (m.map Tie.Fragment.ob).length := by
+    rw [BitVec.toNat_ofNat, List.length_map]; exact Nat.mod_eq_of_lt hlen
+  rw [ht] at e hd
+  have hr := C17_rebuilt_when_covered (m.map Tie.Fragment.ob) (by rw [List.length_map]; exact hm)
+    (fs.map Tie.Fragment.absFrag)
+    (by
+      intro g hg hle
+      obtain ⟨f, hf, rfl⟩ := List.mem_map.mp hg
+      rw [List.length_map] at hle
+      exact srcConsistent_abs m f (hc f hf hle))
+    (by rw [List.length_map]; exact hcov)
+  rw [hr.1] at e
+  rw [hr.2] at hd
+  have : d' = m := (List.map_inj_right (fun x y hxy => Tie.Fragment.ob_inj.mp hxy)).mp hd
+  subst this
+  exact ⟨_, e⟩
+
+/-- non-vacuity: the TRANSLATED code run on a concrete fragment set by the kernel — 11 bytes
+(tail mask in use), overlap, duplicate, reverse order, one out-of-range fragment; and the same
+set without its last fragment is not complete -/
+example :
+    let bs (l : List Nat) : List (BitVec 8) := l.map (BitVec.ofNat 8)
+    let fs : List Tie.Fragment.SrcFrag :=
+      [⟨8#32, 3#32, bs [9,10,11]⟩, ⟨9#32, 3#32, bs [0,0,0]⟩, ⟨3#32, 6#32, bs [4,5,6,7,8,9]⟩,
+       ⟨8#32, 3#32, bs [9,10,11]⟩, ⟨0#32, 4#32, bs [1,2,3,4]⟩]
+    (Tie.Fragment.srcSession 11#32 fs).toOption
+      = some ([true, false, true, true, true], true, bs [1,2,3,4,5,6,7,8,9,10,11]) ∧
+    (Tie.Fragment.srcSession 11#32 (fs.take 4)).toOption.map (fun r => (r.1, r.2.1))
+      = some ([true, false, true, true], false) := by
+  decide
 
 end Gotlcp.Props.C17
